@@ -20,9 +20,8 @@ Q_Asts2 == SeqsUpTo(Q_E2a, 2) \cup SeqsUpTo(Q_E2b, 3)
 \* ---- thorough: every expression of <= 3 items over 0..6 (178 809 ASTs)
 T_Asts1 == Exprs(0..6, 3)
 T_E2a == Entries(Exprs(0..2, 1), Exprs(0..2, 1))
-T_E2b == Entries(Exprs(0..1, 1), Exprs(0..1, 1))
 T_E2c == Entries(Exprs(0..2, 1), Exprs(0..2, 2))
-T_Asts2 == SeqsUpTo(T_E2a, 2) \cup SeqsUpTo(T_E2b, 3) \cup SeqsUpTo(T_E2c, 1)
+T_Asts2 == SeqsUpTo(T_E2a, 2) \cup SeqsUpTo(Q_E2b, 4) \cup SeqsUpTo(Q_E2a, 2) \cup SeqsUpTo(T_E2c, 1)
 
 \* ---- tiny: liveness and negative controls
 S_Asts1 == Exprs(0..3, 2)
